@@ -210,9 +210,6 @@ fn hash_out(o: &Out) -> u64 {
         Out::OtherErr => 5,
     }
 }
-fn ch(h: u64) -> char {
-    (48 + (h & 63)) as u8 as char
-}
 fn same(a: f64, b: f64) -> bool {
     canon_bits(a) == canon_bits(b)
 }
@@ -315,19 +312,19 @@ fn oracle(points: &[Pt], out: &Out) -> Option<String> {
 }
 
 struct CaseRes {
-    model: char,
-    spec: char,
+    model: u64,
+    spec: u64,
     accepted: bool,
     violation: Option<String>,
 }
 fn run_contour(points: &[Pt], variant: u64) -> CaseRes {
     let direct = convert(&build(points));
-    let model = ch(hash_out(&direct));
+    let model = hash_out(&direct);
     let d = doc(points, variant);
     let parsed = catch(|| Glyph::parse_raw(d.as_bytes()));
     match parsed {
-        Err(_) => CaseRes { model, spec: '!', accepted: false, violation: Some("parse_raw panicked".into()) },
-        Ok(Err(_)) => CaseRes { model, spec: '-', accepted: false, violation: None },
+        Err(_) => CaseRes { model, spec: 6, accepted: false, violation: Some("parse_raw panicked".into()) },
+        Ok(Err(_)) => CaseRes { model, spec: 1, accepted: false, violation: None },
         Ok(Ok(g)) => {
             let empty = Contour::default();
             let c = if points.is_empty() && g.contours.is_empty() {
@@ -335,18 +332,18 @@ fn run_contour(points: &[Pt], variant: u64) -> CaseRes {
             } else if g.contours.len() == 1 {
                 &g.contours[0]
             } else {
-                return CaseRes { model, spec: '!', accepted: true, violation: Some("parsed glyph does not hold exactly one contour".into()) };
+                return CaseRes { model, spec: 6, accepted: true, violation: Some("parsed glyph does not hold exactly one contour".into()) };
             };
             let unchanged = c.points.len() == points.len()
                 && c.points.iter().zip(points).all(|(a, b)| {
                     tnum(&a.typ) == b.0 && a.smooth == b.1 && same(a.x, b.2) && same(a.y, b.3)
                 });
             if !unchanged {
-                return CaseRes { model, spec: '!', accepted: true, violation: Some("the parsed contour differs from the document".into()) };
+                return CaseRes { model, spec: 6, accepted: true, violation: Some("the parsed contour differs from the document".into()) };
             }
             let out = convert(c);
             let violation = oracle(points, &out);
-            CaseRes { model, spec: ch(hash_out(&out)), accepted: true, violation }
+            CaseRes { model, spec: hash_out(&out), accepted: true, violation }
         }
     }
 }
@@ -409,19 +406,28 @@ fn points_rand(key: u64, j: u64, digits: &[u8]) -> Vec<Pt> {
         .collect()
 }
 
-/// a type sequence that is legal with high probability (digit coding of C11: type*2 + smooth)
-fn gen_mostly_legal(rng: &mut Rng, len: usize) -> Vec<u8> {
-    let mut v = Vec::with_capacity(len);
-    let open = rng.chance(1, 3);
-    let mut offs = 0u32;
-    for i in 0..len {
-        let t: u8 = if i == 0 && open {
-            0
-        } else {
-            let r = rng.below(100);
-            if offs == 0 {
+/// type sequence of random contour j (digit coding of C11: type*2 + smooth); the same function
+/// as Run/C20.v gen_digits
+fn gen_digits(key: u64, j: u64) -> Vec<u8> {
+    let kg = mix(key.wrapping_add(3) & MASK);
+    let d0 = draw(kg, j, 0);
+    let len = if j % 40 == 0 { 60 + d0 % 141 } else { 1 + d0 % 24 };
+    let mut ds: Vec<u64> = Vec::with_capacity(len as usize);
+    if draw(kg, j, 1) % 12 == 0 {
+        for i in 0..len {
+            ds.push(draw(kg, j, 10 + i) % 10);
+        }
+    } else {
+        let open = draw(kg, j, 2) % 3 == 0;
+        let mut offs = 0u64;
+        for i in 0..len {
+            let d = draw(kg, j, 10 + i);
+            let r = d % 100;
+            let t = if i == 0 && open {
+                0
+            } else if offs == 0 {
                 if r < 25 { 1 } else if r < 60 { 2 } else if r < 80 { 3 } else { 4 }
-            } else if offs < 2 {
+            } else if offs == 1 {
                 if r < 40 { 2 } else if r < 75 { 3 } else { 4 }
             } else if r < 15 {
                 2
@@ -429,30 +435,27 @@ fn gen_mostly_legal(rng: &mut Rng, len: usize) -> Vec<u8> {
                 if offs == 2 { 3 } else { 4 }
             } else {
                 4
-            }
-        };
-        if t == 2 { offs += 1 } else { offs = 0 }
-        let smooth = t != 2 && rng.chance(1, 3);
-        v.push(t * 2 + smooth as u8);
-    }
-    if len > 0 {
-        if rng.chance(1, 12) {
-            // all off-curves
-            for d in v.iter_mut() {
+            };
+            let sm = if t == 2 { 0 } else if (d >> 20) % 3 == 0 { 1 } else { 0 };
+            ds.push(2 * t + sm);
+            offs = if t == 2 { offs + 1 } else { 0 };
+        }
+        let e = draw(kg, j, 3) % 24;
+        if e < 2 {
+            for d in ds.iter_mut() {
                 *d = 4;
             }
-        } else if rng.chance(1, 8) {
-            let i = rng.below(len as u64) as usize;
-            v[i] = rng.below(10) as u8;
-        }
-        // open contours must not end in off-curves
-        if v[0] / 2 == 0 {
-            while v.len() > 1 && v[v.len() - 1] / 2 == 2 {
-                v.pop();
-            }
+        } else if e < 5 {
+            let q = (draw(kg, j, 4) % len) as usize;
+            ds[q] = draw(kg, j, 5) % 10;
         }
     }
-    v
+    if !ds.is_empty() && ds[0] >> 1 == 0 {
+        while ds.len() > 1 && ds[ds.len() - 1] >> 1 == 2 {
+            ds.pop();
+        }
+    }
+    ds.iter().map(|d| *d as u8).collect()
 }
 
 // ---------- transforms ----------
@@ -469,6 +472,7 @@ struct TrRes {
     norad: (f64, f64),
     kurbo: (f64, f64),
     roundtrip_ok: bool,
+    back: AffineTransform,
     formula: (f64, f64),
 }
 fn run_transform(t: AffineTransform, p: (f64, f64)) -> TrRes {
@@ -482,14 +486,12 @@ fn run_transform(t: AffineTransform, p: (f64, f64)) -> TrRes {
         && same(back.y_scale, t.y_scale)
         && same(back.x_offset, t.x_offset)
         && same(back.y_offset, t.y_offset);
-    // the kurbo side goes through the whole round trip: to kurbo, back, to kurbo again
-    let ka2: kurbo::Affine = back.into();
-    let kp = ka2 * kurbo::Point::new(p.0, p.1);
+    let kp = ka * kurbo::Point::new(p.0, p.1);
     let formula = (
         t.x_scale * p.0 + t.yx_scale * p.1 + t.x_offset,
         t.xy_scale * p.0 + t.y_scale * p.1 + t.y_offset,
     );
-    TrRes { norad: (cp.x, cp.y), kurbo: (kp.x, kp.y), roundtrip_ok, formula }
+    TrRes { norad: (cp.x, cp.y), kurbo: (kp.x, kp.y), roundtrip_ok, back, formula }
 }
 fn hash_pt(h: u64, p: (f64, f64)) -> u64 {
     hash_float(hash_float(h, p.0), p.1)
@@ -497,6 +499,68 @@ fn hash_pt(h: u64, p: (f64, f64)) -> u64 {
 
 fn json_str(s: &str) -> String {
     serde_json::to_string(s).unwrap()
+}
+
+const BS_TR: u64 = 100;
+const BS_EXH: u64 = 125;
+const BS_RAND: u64 = 50;
+
+fn exh_types(n: usize, idx: u64) -> Vec<u8> {
+    let mut types = vec![0u8; n];
+    let mut x = idx;
+    for k in (0..n).rev() {
+        types[k] = (x % 5) as u8;
+        x /= 5;
+    }
+    types
+}
+fn exh_case(key: u64, n: usize, idx: u64) -> (Vec<u8>, Vec<Pt>, CaseRes) {
+    let types = exh_types(n, idx);
+    let pts = points_exh(&types, draw(key, 7000 + n as u64, idx));
+    let r = run_contour(&pts, draw(key, 8000 + n as u64, idx));
+    (types, pts, r)
+}
+fn rand_case(key: u64, j: u64) -> (Vec<u8>, CaseRes) {
+    let digits = gen_digits(key, j);
+    let pts = points_rand(key, j, &digits);
+    let r = run_contour(&pts, draw(key, 9000, j));
+    (digits, r)
+}
+/// (fingerprint of ContourPoint::transform, fingerprint of the kurbo side + round trip)
+fn tr_hashes(r: &TrRes) -> (u64, u64) {
+    let b = r.back;
+    let mut hk = hash_pt(29, r.kurbo);
+    for f in [b.x_scale, b.xy_scale, b.yx_scale, b.y_scale, b.x_offset, b.y_offset] {
+        hk = hash_float(hk, f);
+    }
+    (hash_pt(29, r.norad), hk)
+}
+
+/// folds per-case fingerprints block-wise, like Run/C20.v block_sums
+struct Sums {
+    bsize: u64,
+    n: u64,
+    cur: u64,
+    out: String,
+}
+impl Sums {
+    fn new(bsize: u64) -> Sums {
+        Sums { bsize, n: 0, cur: 0, out: String::new() }
+    }
+    fn push(&mut self, h: u64) {
+        self.cur = hstep(self.cur, h);
+        self.n += 1;
+        if self.n == self.bsize {
+            self.flush();
+        }
+    }
+    fn flush(&mut self) {
+        if self.n > 0 {
+            let _ = writeln!(self.out, "{}", self.cur);
+            self.n = 0;
+            self.cur = 0;
+        }
+    }
 }
 
 pub fn main(a: &Args) {
@@ -522,66 +586,56 @@ pub fn main(a: &Args) {
     let mut exh_err = 0u64;
     for n in 0..=maxlen {
         let count = 5u64.pow(n as u32);
-        let mut model = String::with_capacity(count as usize);
-        let mut spec = String::with_capacity(count as usize);
-        let mut types = vec![0u8; n];
+        let mut model = Sums::new(BS_EXH);
+        let mut spec = Sums::new(BS_EXH);
         for idx in 0..count {
-            let mut x = idx;
-            for k in (0..n).rev() {
-                types[k] = (x % 5) as u8;
-                x /= 5;
-            }
-            let pts = points_exh(&types, rng.next());
-            let r = run_contour(&pts, rng.next());
+            let (types, _pts, r) = exh_case(key, n, idx);
             model.push(r.model);
             spec.push(r.spec);
             exh_total += 1;
             if r.accepted {
                 exh_accepted += 1;
             }
-            if r.model == '2' || r.model == '3' {
+            if r.model == 2 || r.model == 3 {
                 exh_err += 1;
             }
             if let Some(v) = r.violation {
                 let digits: String = types.iter().map(|t| (b'0' + t) as char).collect();
                 push_violation(
-                    format!(
-                        "{{\"kind\":\"contour\",\"coords\":\"exh\",\"digits5\":\"{}\",\"points\":{},\"what\":{}}}",
-                        digits,
-                        json_str(&types.iter().map(|t| TYPES[*t as usize]).collect::<Vec<_>>().join(" ")),
-                        json_str(&v)
-                    ),
+                    format!("{{\"kind\":\"contour\",\"coords\":\"exh\",\"digits5\":\"{}\",\"what\":{}}}", digits, json_str(&v)),
                     &mut n_viol,
                 );
             }
         }
-        write_file(&a.out.join(format!("exh_model_{}.txt", n)), &model);
-        write_file(&a.out.join(format!("exh_spec_{}.txt", n)), &spec);
+        model.flush();
+        spec.flush();
+        write_file(&a.out.join(format!("exh_model_{}.txt", n)), &model.out);
+        write_file(&a.out.join(format!("exh_spec_{}.txt", n)), &spec.out);
     }
 
     // ----- random longer contours -----
     let nrand: u64 = if a.thorough() { 200_000 } else { 8_000 };
-    let mut cases = String::new();
-    let mut rmodel = String::new();
-    let mut rspec = String::new();
+    let mut rmodel = Sums::new(BS_RAND);
+    let mut rspec = Sums::new(BS_RAND);
     let mut rand_accepted = 0u64;
+    let mut rand_alloff = 0u64;
     let mut lens = 0u64;
+    let mut samples = String::new();
     for j in 0..nrand {
-        let len = if j % 40 == 0 { rng.range(60, 200) } else { rng.range(1, 24) } as usize;
-        let digits = if rng.chance(1, 12) {
-            (0..len).map(|_| rng.below(10) as u8).collect::<Vec<_>>()
-        } else {
-            gen_mostly_legal(&mut rng, len)
-        };
-        let pts = points_rand(key, j, &digits);
-        let r = run_contour(&pts, rng.next());
+        let (digits, r) = rand_case(key, j);
         rmodel.push(r.model);
         rspec.push(r.spec);
         if r.accepted {
             rand_accepted += 1;
+            if !digits.is_empty() && digits.iter().all(|d| d / 2 == 2) {
+                rand_alloff += 1;
+            }
         }
         lens += digits.len() as u64;
         let ds: String = digits.iter().map(|d| (b'0' + d) as char).collect();
+        if j >= 1 && j <= 3 {
+            let _ = writeln!(samples, "{} {}", ds, r.accepted);
+        }
         if let Some(v) = r.violation {
             push_violation(
                 format!(
@@ -591,28 +645,30 @@ pub fn main(a: &Args) {
                 &mut n_viol,
             );
         }
-        cases.push_str(&ds);
-        cases.push('\n');
     }
-    write_file(&a.out.join("rand_cases.txt"), &cases);
-    write_file(&a.out.join("rand_model.txt"), &rmodel);
-    write_file(&a.out.join("rand_spec.txt"), &rspec);
+    rmodel.flush();
+    rspec.flush();
+    write_file(&a.out.join("rand_model.txt"), &rmodel.out);
+    write_file(&a.out.join("rand_spec.txt"), &rspec.out);
+    write_file(&a.out.join("rand_samples.txt"), &samples);
 
     // ----- transforms -----
     let ntr: u64 = if a.thorough() { 10_000_000 } else { 100_000 };
-    let mut tr = String::with_capacity(ntr as usize);
-    let mut trk = String::with_capacity(ntr as usize);
+    let mut tr = Sums::new(BS_TR);
+    let mut trk = Sums::new(BS_TR);
     let mut tr_nonfinite = 0u64;
     let mut tr_inexact = 0u64;
+    let kt = mix(key.wrapping_add(1) & MASK);
     for i in 0..ntr {
         let (t, p) = tr_case(key, i);
         let r = run_transform(t, p);
-        tr.push(ch(hash_pt(29, r.norad)));
-        trk.push(ch(hash_pt(29, r.kurbo)));
+        let (h, hk) = tr_hashes(&r);
+        tr.push(h);
+        trk.push(hk);
         if !r.norad.0.is_finite() || !r.norad.1.is_finite() {
             tr_nonfinite += 1;
         }
-        if draw(mix(key.wrapping_add(1) & MASK), i, 100) & 3 != 0 {
+        if draw(kt, i, 100) & 3 != 0 {
             tr_inexact += 1;
         }
         let mut what = vec![];
@@ -632,32 +688,56 @@ pub fn main(a: &Args) {
             );
         }
     }
-    write_file(&a.out.join("tr.txt"), &tr);
-    write_file(&a.out.join("tr_kurbo.txt"), &trk);
+    tr.flush();
+    trk.flush();
+    write_file(&a.out.join("tr.txt"), &tr.out);
+    write_file(&a.out.join("tr_kurbo.txt"), &trk.out);
 
     write_file(&a.out.join("violations.json"), &format!("[{}]", violations.join(",\n")));
     let summary = format!(
-        "{{\"key\":{},\"maxlen\":{},\"exhaustive_sequences\":{},\"exhaustive_accepted\":{},\"exhaustive_conversion_errors\":{},\"random_contours\":{},\"random_accepted\":{},\"random_mean_len\":{:.1},\"transforms\":{},\"transforms_nonfinite_result\":{},\"transforms_not_small_integer\":{},\"oracle_violations\":{}}}",
-        key, maxlen, exh_total, exh_accepted, exh_err, nrand, rand_accepted, lens as f64 / nrand as f64, ntr, tr_nonfinite, tr_inexact, n_viol
+        "{{\"key\":{},\"maxlen\":{},\"block_exh\":{},\"block_rand\":{},\"block_tr\":{},\"exhaustive_sequences\":{},\"exhaustive_accepted\":{},\"exhaustive_conversion_errors\":{},\"random_contours\":{},\"random_accepted\":{},\"random_accepted_all_offcurve\":{},\"random_mean_len\":{:.1},\"transforms\":{},\"transforms_nonfinite_result\":{},\"transforms_not_small_integer\":{},\"oracle_violations\":{}}}",
+        key, maxlen, BS_EXH, BS_RAND, BS_TR, exh_total, exh_accepted, exh_err, nrand, rand_accepted, rand_alloff,
+        lens as f64 / nrand as f64, ntr, tr_nonfinite, tr_inexact, n_viol
     );
     write_file(&a.out.join("summary.json"), &summary);
 }
 
-/// replay file: one line, `contour exh <digits5>` | `contour rand <key> <index> <digits>` |
-/// `transform <key> <index>`
+/// replay file: one line,
+///   `contour exh <digits5>` | `contour rand <key> <index>` | `transform <key> <index>`   readable results
+///   `block exh <key> <n> <base> <count>` | `block rand <key> <base> <count>` | `block tr <key> <base> <count>`
+///       per-case fingerprints "model spec" (tr: "transform kurbo"), one case per line
 fn replay(p: &std::path::Path) {
     let s = std::fs::read_to_string(p).expect("replay file");
     let w: Vec<&str> = s.split_whitespace().collect();
+    let num = |i: usize| -> u64 { w[i].parse().unwrap() };
     match (w.first().copied(), w.get(1).copied()) {
+        (Some("block"), Some("exh")) => {
+            for idx in num(4)..num(4) + num(5) {
+                let (_, _, r) = exh_case(num(2), num(3) as usize, idx);
+                println!("{} {}", r.model, r.spec);
+            }
+        }
+        (Some("block"), Some("rand")) => {
+            for j in num(3)..num(3) + num(4) {
+                let (_, r) = rand_case(num(2), j);
+                println!("{} {}", r.model, r.spec);
+            }
+        }
+        (Some("block"), Some("tr")) => {
+            for i in num(3)..num(3) + num(4) {
+                let (t, p) = tr_case(num(2), i);
+                let (h, hk) = tr_hashes(&run_transform(t, p));
+                println!("{} {}", h, hk);
+            }
+        }
         (Some("contour"), Some(kind)) => {
             let pts = if kind == "exh" {
                 let types: Vec<u8> = w.get(2).unwrap_or(&"").bytes().map(|b| b - b'0').collect();
                 points_exh(&types, 0)
             } else {
-                let key: u64 = w[2].parse().unwrap();
-                let j: u64 = w[3].parse().unwrap();
-                let digits: Vec<u8> = w.get(4).unwrap_or(&"").bytes().map(|b| b - b'0').collect();
-                points_rand(key, j, &digits)
+                let digits = gen_digits(num(2), num(3));
+                println!("digits: {}", digits.iter().map(|d| (b'0' + d) as char).collect::<String>());
+                points_rand(num(2), num(3), &digits)
             };
             let d = doc(&pts, 0);
             let direct = convert(&build(&pts));
@@ -669,26 +749,24 @@ fn replay(p: &std::path::Path) {
                 Ok(Err(e)) => println!("parse_raw: rejected ({:?})", e),
                 Ok(Ok(g)) => {
                     println!("parse_raw: accepted");
-                    if let Some(c) = g.contours.first() {
-                        let out = convert(c);
-                        println!("to_kurbo(parsed): {}", dump_out(&out));
-                        println!("parsed_bits: {}", bits_out(&out));
-                        println!("oracle: {}", oracle(&pts, &out).unwrap_or_else(|| "holds".into()));
-                    }
+                    let empty = Contour::default();
+                    let c = g.contours.first().unwrap_or(&empty);
+                    let out = convert(c);
+                    println!("to_kurbo(parsed): {}", dump_out(&out));
+                    println!("parsed_bits: {}", bits_out(&out));
+                    println!("oracle: {}", oracle(&pts, &out).unwrap_or_else(|| "holds".into()));
                 }
             }
         }
         (Some("transform"), _) => {
-            let key: u64 = w[1].parse().unwrap();
-            let i: u64 = w[2].parse().unwrap();
-            let (t, p) = tr_case(key, i);
+            let (t, p) = tr_case(num(1), num(2));
             let r = run_transform(t, p);
             println!("transform: {:?}", t);
             println!("point: ({:?}, {:?})", p.0, p.1);
             println!("ContourPoint::transform: ({:?}, {:?})", r.norad.0, r.norad.1);
             println!("kurbo Affine * Point:    ({:?}, {:?})", r.kurbo.0, r.kurbo.1);
             println!("formula:                 ({:?}, {:?})", r.formula.0, r.formula.1);
-            println!("roundtrip identity: {}", r.roundtrip_ok);
+            println!("roundtrip identity: {} (back: {:?})", r.roundtrip_ok, r.back);
             println!(
                 "bits: [[{}],[{},{}],[{},{}]]",
                 [t.x_scale, t.xy_scale, t.yx_scale, t.y_scale, t.x_offset, t.y_offset, p.0, p.1]
